@@ -96,15 +96,17 @@ type server struct {
 	next  reply
 	calls int
 	// answers to the acquire calls of the background counter worker (used by the missing-replies sub-check only)
-	acqMode  int32 // acqGrant / acqSilent / acqFail
-	acqQuota int32
-	acqCalls int32
+	acqMode   int32 // acqGrant / acqSilent / acqFail
+	acqQuota  int32
+	acqCalls  int32
+	acqTokens int64 // tokens granted in mode acqGrantAsked
 }
 
 const (
-	acqGrant  = iota // every asked flow control is accepted with acqQuota
-	acqSilent        // the server answers, but without a result for the flow control (a missing reply)
-	acqFail          // the call fails
+	acqGrant      = iota // every asked flow control is accepted with acqQuota
+	acqSilent            // the server answers, but without a result for the flow control (a missing reply)
+	acqFail              // the call fails
+	acqGrantAsked        // every asked flow control is accepted with the number of tokens it asked for (token bucket)
 )
 
 func newServer(tb bool) *server {
@@ -146,6 +148,11 @@ func newServer(tb bool) *server {
 		case acqGrant:
 			for _, r := range req.Spec.Requests {
 				ans.Status.Results = append(ans.Status.Results, proxyv1alpha1.RateLimitAcquireResult{FlowControl: r.FlowControl, Accept: true, Limit: atomic.LoadInt32(&s.acqQuota)})
+			}
+		case acqGrantAsked:
+			for _, r := range req.Spec.Requests {
+				ans.Status.Results = append(ans.Status.Results, proxyv1alpha1.RateLimitAcquireResult{FlowControl: r.FlowControl, Accept: true, Limit: r.Tokens})
+				atomic.AddInt64(&s.acqTokens, int64(r.Tokens))
 			}
 		}
 		return true, ans, nil
@@ -946,6 +953,20 @@ func TestPropMissingReplies(t *testing.T) {
 					sub.Sample(desc)
 				}
 			}(c)
+		}
+		// side by side with the above: the same outage for token-bucket schemas under the count strategy
+		for i, n := 0, rapid.IntRange(1, 2).Draw(t, "tokenBucketConfigurations"); i < n; i++ {
+			c := tbConf{LQ: int32(rapid.IntRange(2, 6).Draw(t, fmt.Sprintf("tbLocalQPS[%d]", i))), GQ: int32(rapid.IntRange(60, 200).Draw(t, fmt.Sprintf("tbGlobalQPS[%d]", i))),
+				Fail: rapid.IntRange(0, 2).Draw(t, fmt.Sprintf("tbFailInsteadOfSilent[%d]", i)) == 0}
+			wg.Add(1)
+			go func() {
+				defer wg.Done()
+				if msg := tokenBucketOutage(c, tbSub); msg != "" {
+					mu.Lock()
+					problems = append(problems, msg)
+					mu.Unlock()
+				}
+			}()
 		}
 		// side by side with the above: the gateway's view of the limiter server's readiness, from the REAL client set
 		hbFail := rapid.SampledFrom([]string{"status-503", "hang-up"}).Draw(t, "heartbeatFailure")
